@@ -40,11 +40,14 @@ func (m *MmsTables) MergeOutOfOrder(shId uint64, full bool, force bool) error {
 		case <-m.closed:
 			log.Warn("shard closed", zap.Uint64("id", shId))
 			return nil
-		case <-m.stopCompMerge:
+		case <-m.stopSignal():
 			log.Warn("stopped", zap.Uint64("id", shId))
 			return nil
 		case compLimiter <- struct{}{}:
-			m.wg.Add(1)
+			if !m.addMergeTask() {
+				compLimiter.Release()
+				return nil
+			}
 			go func(mst string) {
 				defer func() {
 					compLimiter.Release()
@@ -85,7 +88,7 @@ func (m *MmsTables) mergeOutOfOrder(mst string, shId uint64, full bool, force bo
 		select {
 		case <-m.closed:
 			return
-		case <-m.stopCompMerge:
+		case <-m.stopSignal():
 			return
 		default:
 			m.execMergeContext(item)
@@ -94,7 +97,7 @@ func (m *MmsTables) mergeOutOfOrder(mst string, shId uint64, full bool, force bo
 }
 
 func (m *MmsTables) getEventContext() *EventContext {
-	return NewEventContext(m.indexMergeSet, m.scheduler, m.stopCompMerge)
+	return NewEventContext(m.indexMergeSet, m.scheduler, m.stopSignal())
 }
 
 func (m *MmsTables) execMergeContext(ctx *MergeContext) {
@@ -126,7 +129,7 @@ func (m *MmsTables) Listen(signal chan struct{}, onClose func()) {
 		select {
 		case <-m.closed:
 			onClose()
-		case <-m.stopCompMerge:
+		case <-m.stopSignal():
 			onClose()
 		case <-signal:
 			return
